@@ -4,6 +4,10 @@ use crate::Ctx;
 use serde_json::Value;
 
 pub mod c01;
+pub mod c02;
+pub mod c04;
+pub mod c11;
+pub mod c12;
 pub mod c05;
 pub mod c07;
 pub mod c08;
@@ -19,5 +23,5 @@ pub struct Monitor {
 }
 
 pub fn all() -> Vec<Monitor> {
-    vec![c01::MONITOR, c05::MONITOR, c07::MONITOR, c08::MONITOR_C08, c09::MONITOR, c08::MONITOR_C10, c20::MONITOR]
+    vec![c01::MONITOR, c02::MONITOR, c04::MONITOR, c11::MONITOR, c12::MONITOR, c05::MONITOR, c07::MONITOR, c08::MONITOR_C08, c09::MONITOR, c08::MONITOR_C10, c20::MONITOR]
 }
